@@ -265,6 +265,8 @@ def coverage_gaps(classes, tier):
 
 def t_main(ctx):
     ctx.hyp(s_case(), ctx.n(250, 3000))
+    if ctx.shard == 0:
+        ctx.exhaustive.append('every applicable edit of the catalogue for every signed case')
 
 
 TASKS = [('sign_edit_verify', (t_main, 16))]
